@@ -11,7 +11,7 @@ GraphNode / TaskRef / raw argument                   `Node` (`alias`, `data`, `t
 Task.func                                            `Func` (`call h`, `_identity_cast typ`, `NestedContainer.to_container`)
 `values` mapping handed to `node(values)`            `env : Obj → Option Obj` (`none` = KeyError / missing dependency)
 any exception while evaluating                       `none`
-convert_legacy_task(None, x, all_keys)               `convert`; as a task argument `convertArgs` (dicts ↦ `Dict(a)`)
+convert_legacy_task(None, x, all_keys)               `convert` (dict values are converted like list elements: `convertVals`)
 convert_legacy_task(k, x, all_keys) + graph loop     `convertTop`, `convertGraph`
 execute_graph (cache, evaluation in `order`)         `evalKeyN` (denotation by dependency recursion, fuel = graph size)
 the statement's legacy semantics                     `evalObj`, `evalKeyL`
@@ -276,7 +276,7 @@ mutual
 /-- `convert_legacy_task(None, task, all_keys)` -/
 def convert (keys : List Obj) : Obj → Node
   | .tuple (h :: args) =>
-    if h.callable then .task (.call h) (convertArgs keys args) []
+    if h.callable then .task (.call h) (convertList keys args) []
     else if inKeys keys (.tuple (h :: args)) then .alias (.tuple (h :: args))
     else
       let ps := convertList keys (h :: args)
@@ -290,16 +290,18 @@ def convert (keys : List Obj) : Obj → Node
   | .none => .raw .none
   | .fn f => .raw (.fn f)
   | .quoted v => .raw (.quoted v)
-  | .dict kvs => .raw (.dict kvs)
+  | .dict kvs =>
+    -- like the elements of a list, the values of a dict are converted; `Dict(parsed_dict)` when one of them is a node
+    let ps := convertVals keys kvs
+    if ps.any Node.isGraphNode then .task (.toContainer .dict) ps [] else .raw (.dict kvs)
   | .app f a k => .raw (.app f a k)
 def convertList (keys : List Obj) : List Obj → List Node
   | [] => []
   | x :: xs => convert keys x :: convertList keys xs
-/-- the argument loop of the task branch: `Dict(a)` for dict arguments -/
-def convertArgs (keys : List Obj) : List Obj → List Node
+/-- `tuple(itertools.chain(*parsed_dict.items()))`: the keys as they are, the values converted -/
+def convertVals (keys : List Obj) : List (Obj × Obj) → List Node
   | [] => []
-  | .dict kvs :: xs => .task (.toContainer .dict) (rawItems kvs) [] :: convertArgs keys xs
-  | x :: xs => convert keys x :: convertArgs keys xs
+  | (k, v) :: rest => .raw k :: convert keys v :: convertVals keys rest
 end
 
 abbrev LGraph := List (Obj × Obj)
